@@ -399,6 +399,8 @@ def check(prog, res, tier):
                                rule='C02.f.de43', unknown_ok=benign_unknown))
     for ob in common.state_obs(res, 'C02.c', func_where(dfi), [('_field_to_iso8583', runs), ('_dict_to_iso8583', runs_d)], 'message encoding'):
         res.add(ob)
+    for ob in common.strict_codec_obs(res, 'C02.b', func_where(dfi), [('_field_to_iso8583', runs)], 'element encoding'):
+        res.add(ob)
     if prog.has_func('iso8583._icc_to_dict'):
         res.add(icc_tag_ob(prog, res))
 
